@@ -543,6 +543,9 @@ def rename_back(relpath: str, tree: ast.Module) -> List[str]:
             if len(cands) == 1 and sum(1 for m in missing if any(len(s["pos"]) == len(cands[0][1].args.posonlyargs + cands[0][1].args.args) for s in sigs.get(m.rsplit(".", 1)[-1], []))) == 1:
                 q, node, cls = cands[0]
                 old = node.name
+                # a pure rename leaves no reference to the old name behind (a forgotten call site is a behavioural change)
+                if any((isinstance(x, ast.Attribute) and x.attr == kname) or (isinstance(x, ast.Name) and x.id == kname) for x in ast.walk(tree)):
+                    continue
                 for x in ast.walk(tree):
                     if cls is not None and isinstance(x, ast.Attribute) and x.attr == old:
                         x.attr = kname
